@@ -5,6 +5,7 @@ explicit range side conditions.
 Nothing here is specific to one property.  Unsupported constructs raise
 EncodingError -- the caller reports "cannot encode" (exit 2), never a pass.
 """
+import copy
 import os
 import re
 import subprocess
@@ -306,6 +307,27 @@ class RefV(V):
         return "&%r" % (self.target,)
 
 
+class ObjV(V):
+    """Reference to a mutable heap object (Exec.heap[oid] = list of field values)."""
+
+    def __init__(self, oid):
+        self.oid = oid
+
+    def __repr__(self):
+        return "Obj#%s" % self.oid
+
+
+class LocV(V):
+    """A reference to one field of a heap object (`&mut obj.k`)."""
+
+    def __init__(self, oid, k):
+        self.oid = oid
+        self.k = k
+
+    def __repr__(self):
+        return "&Obj#%s.%d" % (self.oid, self.k)
+
+
 class OpaqueV(V):
     def __init__(self, what):
         self.what = what
@@ -389,6 +411,8 @@ def wrap(term, ty):
 # --------------------------------------------------------------------------
 
 class Outcome:
+    heap = None
+
     def __init__(self, kind, pc, value=None, msg=None, events=None, trace=None):
         self.kind = kind      # "return" | "panic" | "unreachable"
         self.pc = pc          # list of SMT bool terms
@@ -407,6 +431,27 @@ class Exec:
         self.inline = inline or []     # regexes of crate functions to inline
         self.paths = 0
         self.stop_at = stop_at         # optional predicate(fn, bb, terminator) -> bool : stop path here
+        self.heap = {}                 # oid -> [field values]; snapshot on forks, recorded in every Outcome
+
+    def new_obj(self, oid, fields):
+        self.heap[oid] = list(fields)
+        return ObjV(oid)
+
+    def load(self, v):
+        """Follow references down to a value (heap locations are read)."""
+        while True:
+            if isinstance(v, RefV):
+                v = v.target
+            elif isinstance(v, LocV):
+                v = self.heap[v.oid][v.k]
+            else:
+                return v
+
+    def store(self, loc, val):
+        if isinstance(loc, LocV):
+            self.heap[loc.oid][loc.k] = val
+        else:
+            raise EncodingError("store through %r" % (loc,))
 
     # ---- operand / place parsing -------------------------------------
     def const_value(self, txt, fn):
@@ -417,7 +462,12 @@ class Exec:
         if txt in ("true", "false"):
             return mk_bool(txt == "true")
         if txt.startswith('"'):
-            return StrV(bytes(txt[1:txt.rindex('"')], "utf-8").decode("unicode_escape"))
+            raw = txt[1:txt.rindex('"')]
+            raw = re.sub(r"\\u\{([0-9a-fA-F]+)\}", lambda mm: chr(int(mm.group(1), 16)), raw)
+            try:
+                return StrV(bytes(raw, "utf-8").decode("unicode_escape") if "\\" in raw else raw)
+            except Exception:
+                return StrV(raw)
         if txt == "()":
             return TupleV([])
         last = txt.split("::")[-1]
@@ -450,6 +500,8 @@ class Exec:
                 v = self.read_place(inner[1:], env, fn)
                 if isinstance(v, RefV):
                     return v.target
+                if isinstance(v, LocV):
+                    return self.heap[v.oid][v.k]
                 return v
             # (_N as Variant)  or (place.k: T)
             m = re.fullmatch(r"(.+) as (\w+)", inner)
@@ -470,6 +522,10 @@ class Exec:
                     return ev.fields[k]
                 if isinstance(base, RefV):
                     base = base.target
+                if isinstance(base, LocV):
+                    base = self.heap[base.oid][base.k]
+                if isinstance(base, ObjV):
+                    return self.heap[base.oid][k]
                 if isinstance(base, TupleV):
                     return base.fields[k]
                 if isinstance(base, EnumV) and base.variant is not None:
@@ -600,7 +656,7 @@ class Exec:
                 if isinstance(v.variant, int):
                     return mk_int(v.variant, "isize")
             raise EncodingError("discriminant of %r in %s" % (v, fn.name))
-        m2 = re.fullmatch(r"(.+) as (.+?) \((\w+)\)", r)
+        m2 = re.fullmatch(r"(.+) as (.+?) \((\w+)(?:\(.*\))?\)", r)
         if m2:
             v = self.operand(m2.group(1), env, fn)
             if m2.group(3) == "IntToInt":
@@ -609,7 +665,19 @@ class Exec:
                 return v
             raise EncodingError("cast kind %s in %s" % (m2.group(3), fn.name))
         if r.startswith("&"):
-            p = re.sub(r"^&(?:mut |raw (?:const|mut) )?", "", r)
+            p = re.sub(r"^&(?:mut |raw (?:const|mut) )?", "", r).strip()
+            mloc = re.fullmatch(r"\((.+)\.(\d+): (.+)\)", p)
+            if mloc:
+                try:
+                    base = self.read_place(mloc.group(1), env, fn)
+                except EncodingError:
+                    base = None
+                if isinstance(base, RefV):
+                    base = base.target
+                if isinstance(base, LocV):
+                    base = self.heap[base.oid][base.k]
+                if isinstance(base, ObjV):
+                    return LocV(base.oid, int(mloc.group(2)))
             return RefV(self.read_place(p, env, fn))
         if r.startswith(("copy ", "move ", "const ", "no_retag ")):
             return self.operand(r, env, fn)
@@ -659,6 +727,10 @@ class Exec:
         self._walk(fn, "bb0", env, list(pc or []), list(events or []), out, depth, [])
         return out
 
+    def _emit(self, out, o):
+        o.heap = copy.deepcopy(self.heap)
+        out.append(o)
+
     def _walk(self, fn, bb, env, pc, events, out, depth, trace):
         visited = 0
         while True:
@@ -680,14 +752,14 @@ class Exec:
             if self.stop_at:
                 label = self.stop_at(fn, bb, term)
                 if label:
-                    out.append(Outcome("stopped", pc, msg=label, events=events, trace=trace, value=dict(env)))
+                    self._emit(out, Outcome("stopped", pc, msg=label, events=events, trace=trace, value=dict(env)))
                     return
             t = term
             if t == "return;":
-                out.append(Outcome("return", pc, value=env.get("_0", TupleV([])), events=events, trace=trace))
+                self._emit(out, Outcome("return", pc, value=env.get("_0", TupleV([])), events=events, trace=trace))
                 return
             if t == "unreachable;":
-                out.append(Outcome("unreachable", pc, events=events, trace=trace))
+                self._emit(out, Outcome("unreachable", pc, events=events, trace=trace))
                 return
             m = re.fullmatch(r"goto -> (bb\d+);", t)
             if m:
@@ -723,11 +795,14 @@ class Exec:
                 self.paths += len(targets)
                 if self.paths > self.max_paths:
                     raise EncodingError("too many paths in %s" % fn.name)
+                saved = copy.deepcopy(self.heap)
                 for k, dst in targets:
+                    self.heap = copy.deepcopy(saved)
                     self._walk(fn, dst, dict(env), pc + ["(= %s %s)" % (v.term, lit(k))], list(events), out, depth,
                                trace)
                 if other is not None:
                     conds = ["(not (= %s %s))" % (v.term, lit(k)) for k, _d in targets]
+                    self.heap = copy.deepcopy(saved)
                     self._walk(fn, other, dict(env), pc + conds, list(events), out, depth, trace)
                 return
             m = re.fullmatch(r"assert\((!?)(.+?), (\".*)\) -> \[success: (bb\d+), unwind.*\];", t)
@@ -740,8 +815,8 @@ class Exec:
                 if ok_const is True:
                     bb = m.group(4)
                     continue
-                out.append(Outcome("panic", pc + [s_not(ok_term)], msg="%s (%s %s)" % (msg, fn.name, bb),
-                                   events=events, trace=trace))
+                self._emit(out, Outcome("panic", pc + [s_not(ok_term)], msg="%s (%s %s)" % (msg, fn.name, bb),
+                                        events=events, trace=trace))
                 if ok_const is False:
                     return
                 pc = pc + [ok_term]
@@ -753,18 +828,20 @@ class Exec:
                 args = [self.operand(a, env, fn) for a in split_top(argtxt)] if argtxt.strip() else []
                 results = self.call(callee, args, pc, events, fn, depth)
                 if len(results) == 1 and results[0][2] is not None and nxt is not None:
-                    cpc, cev, val = results[0]
+                    cpc, cev, val, hp = results[0]
                     pc, events = cpc, cev
+                    self.heap = copy.deepcopy(hp)
                     if dest:
                         self.assign(dest, val, env, fn)
                     bb = nxt
                     continue
-                for cpc, cev, val in results:
+                for cpc, cev, val, hp in results:
                     if val is None:
                         continue    # panic outcomes already appended by call()
                     if nxt is None:
                         continue    # diverging call
                     e2 = dict(env)
+                    self.heap = copy.deepcopy(hp)
                     if dest:
                         self.assign(dest, val, e2, fn)
                     self._walk(fn, nxt, e2, cpc, cev, out, depth, trace)
@@ -796,9 +873,25 @@ class Exec:
                 base.fields[k] = val
                 env[m.group(1)] = base
                 return
+        m = re.fullmatch(r"\((.+)\.(\d+): (.+)\)", place)
+        if m:
+            try:
+                base = self.read_place(m.group(1), env, fn)
+            except EncodingError:
+                base = None
+            if isinstance(base, RefV):
+                base = base.target
+            if isinstance(base, LocV):
+                base = self.heap[base.oid][base.k]
+            if isinstance(base, ObjV):
+                self.heap[base.oid][int(m.group(2))] = val
+                return
         m = re.fullmatch(r"\(\*(_\d+)\)", place)
         if m:
-            # write through a reference: not tracked (only formatter state etc.)
+            tgt = env.get(m.group(1))
+            if isinstance(tgt, LocV):
+                self.heap[tgt.oid][tgt.k] = val
+            # other writes through a reference: not tracked (only formatter state etc.)
             return
         raise EncodingError("cannot assign to place %r in %s" % (place, fn.name))
 
@@ -810,12 +903,15 @@ class Exec:
             if re.search(rx, callee):
                 res = model(self, callee, args, pc, events)
                 outl = []
-                for cpc, cev, val in res:
+                for item in res:
+                    cpc, cev, val = item[0], item[1], item[2]
+                    hp = item[3] if len(item) > 3 else copy.deepcopy(self.heap)
                     if isinstance(val, Outcome):
+                        val.heap = hp
                         self._pending_panics = self._pending_panics + [val]
-                        outl.append((cpc, cev, None))
+                        outl.append((cpc, cev, None, hp))
                     else:
-                        outl.append((cpc, cev, val))
+                        outl.append((cpc, cev, val, hp))
                 return outl
         for rx in self.inline:
             if re.search(rx, callee):
@@ -824,30 +920,38 @@ class Exec:
                 res = []
                 for o in self.run(target, args, pc, events, depth + 1):
                     if o.kind == "return":
-                        res.append((o.pc, o.events, o.value))
+                        res.append((o.pc, o.events, o.value, o.heap))
                     elif o.kind == "panic":
                         self._pending_panics = self._pending_panics + [o]
-                        res.append((o.pc, o.events, None))
+                        res.append((o.pc, o.events, None, o.heap))
                 return res
         # fallback: a function defined in the crate (present in the MIR dump under exactly this
         # path, or as the last path segments) is inlined -- so refactorings that introduce helper
         # functions stay encodable
+        callee = re.sub(r"::<[^<>]*(?:<[^<>]*(?:<[^<>]*>[^<>]*)*>[^<>]*)*>", "", callee)   # drop generic arguments
         cands = [f for n, fs in self.mir.fns.items() for f in fs
                  if n == callee or n.endswith("::" + callee) or (("::" in callee) and n.endswith("::" + callee.split("::")[-1])
                                                                   and callee.split("::")[0] in ("Self", fn.name.split("::")[0]))]
         if not cands:
             last = callee.split("::")[-1]
             cands = [f for n, fs in self.mir.fns.items() for f in fs if n.split("::")[-1] == last and re.fullmatch(r"[\w:]+", callee)]
+        if len(set(f.text for f in cands)) > 1 and "::" in callee:
+            # several methods of that name: pick the one whose receiver type / module matches the path
+            tyname = callee.split("::")[-2]
+            narrowed = [f for f in cands if (f.args and re.search(r"\b%s\b" % re.escape(tyname), f.args[0][1]))
+                        or f.name.split("::")[0] == tyname.lower()]
+            if narrowed:
+                cands = narrowed
         bodies = set(f.text for f in cands)
         if len(bodies) == 1:
             target = cands[0]
             res = []
             for o in self.run(target, args, pc, events, depth + 1):
                 if o.kind == "return":
-                    res.append((o.pc, o.events, o.value))
+                    res.append((o.pc, o.events, o.value, o.heap))
                 elif o.kind == "panic":
                     self._pending_panics = self._pending_panics + [o]
-                    res.append((o.pc, o.events, None))
+                    res.append((o.pc, o.events, None, o.heap))
             return res
         raise EncodingError("call to unmodelled function %r in %s" % (callee, fn.name))
 
